@@ -511,6 +511,7 @@ def run(ctx):  # noqa: F811
     from rules import c01 as _c01
 
     _c01.r01_4_flatten(ctx)  # every branch target gets its label exactly once (shared with C01)
+    _c01.r01_4e_flatten_traces(ctx)  # ... decided on flattened block lists: every b/bz/bnz names a label that is defined once
     r04_8_has_return(ctx)
     from rules import c10 as _c10, c18 as _c18
 
